@@ -847,11 +847,19 @@ def render_item(d, it, repo_root, registry):
             if d.closures:
                 cls = find_closures(sf, it.body_open + 1, it.body_close)
                 for n, spec in d.closures.items():
-                    if n < 1 or n > len(cls):
+                    if isinstance(n, str):
+                        snip = norm(n[1:])
+                        cands = [c for c in cls if snip in norm_tokens(toks[c[0]:c[3]])]
+                        if not cands:
+                            rule_hits["closure-missing"] = rule_hits.get("closure-missing", 0) + 1
+                            continue
+                        p0, p1, body, bend, block = min(cands, key=lambda c: c[3] - c[0])
+                    elif n < 1 or n > len(cls):
                         # the annotated closure is gone: verify without its annotation (the body decides)
                         rule_hits["closure%d-missing" % n] = 1
                         continue
-                    p0, p1, body, bend, block = cls[n - 1]
+                    else:
+                        p0, p1, body, bend, block = cls[n - 1]
                     cind = indent_of(sf, p0)
                     if spec.get("sig"):
                         ed.replace(p0, p1 + 1, [Piece(spec["sig"])])
@@ -987,15 +995,21 @@ def parse_options(d, lines, unit_name):
             else:
                 raise ExtractError("template line %d: bad loop option" % tline)
         elif w == "closure":
-            n, sub, arg = (rest.split(None, 2) + ["", ""])[:3]
+            if rest.startswith("~"):
+                # `closure ~<snippet> ## sig|req|ens ...`: the smallest closure whose text contains the snippet
+                key, _, rem = rest.partition(" ## ")
+                n = key.strip()
+                sub, arg = (rem.split(None, 1) + [""])[:2]
+            else:
+                n, sub, arg = (rest.split(None, 2) + ["", ""])[:3]
             if "[" in sub:
                 arg = sub[sub.index("["):] + " " + arg
                 sub = sub[:sub.index("[")]
-            spec = d.closures.setdefault(int(n), {})
+            spec = d.closures.setdefault(n if n.startswith("~") else int(n), {})
             if sub == "sig":
                 spec["sig"] = arg
             elif sub in ("req", "ens"):
-                c = mk(sub, arg, d.props, ".closure" + n)
+                c = mk(sub, arg, d.props, ".closure" + re.sub(r"\W+", "_", str(n)))
                 spec.setdefault(sub, []).append(c)
                 cur = c
             else:
